@@ -202,6 +202,10 @@ Spec == Init /\ [][Next]_vars
 (***************************************************************************)
 (* Emission: the documents worth executing                                  *)
 (***************************************************************************)
+\* Seal: the last thing the attacker (like the issuer) can do to an assertion-level document is to encrypt one
+\* top-level assertion, whatever it has become, for the SP's public key.  The SP then sees plain and decrypted
+\* assertions side by side; the identity it reports must still come from genuine, covered content.
+Sealable == IF Level = "assertion" /\ kind[root] = "Resp" /\ Len(ParsedAsrts) \in {1, 2} THEN Range(ParsedAsrts) ELSE {}
 Tree == {[n |-> n, kind |-> kind[n], id |-> ida[n], content |-> content[n], kids |-> kids[n],
           orig |-> sorig[n]] : n \in Attached}
 Verdicts == [c \in Cfgs |-> [cfg |-> c, model |-> Accepts(c), pinned |-> AcceptsBy(c, FALSE), mustReject |-> MustReject(c),
@@ -211,7 +215,7 @@ Verdicts == [c \in Cfgs |-> [cfg |-> c, model |-> Accepts(c), pinned |-> Accepts
 Interesting == edits <= 1 \/ \E c \in Cfgs : AcceptsBy(c, TRUE) \/ AcceptsBy(c, FALSE) \/ ~MustReject(c)
 EmitInteresting == Interesting =>
     PrintT(<<"CASE", ToJson([root |-> root, edits |-> edits, level |-> Level, tree |-> Tree,
-                             verdicts |-> {Verdicts[c] : c \in Cfgs}, tool |-> ToolTable])>>)
+                             verdicts |-> {Verdicts[c] : c \in Cfgs}, tool |-> ToolTable, sealable |-> Sealable])>>)
 \* a deterministic sample of the uninteresting remainder (every document whose shape number
 \* is a multiple of SampleMod)
 CONSTANT SampleMod
@@ -219,5 +223,5 @@ ShapeNo == Cardinality(Attached) * 7 + Len(kids[root]) * 3 + edits
            + Cardinality({n \in Attached : kind[n] = "Sig"}) * 5 + Cardinality({n \in Attached : content[n] = "forged"})
 EmitSample == (~Interesting /\ SampleMod > 0 /\ ShapeNo % SampleMod = 0) =>
     PrintT(<<"CASE", ToJson([root |-> root, edits |-> edits, level |-> Level, tree |-> Tree,
-                             verdicts |-> {Verdicts[c] : c \in Cfgs}, tool |-> ToolTable])>>)
+                             verdicts |-> {Verdicts[c] : c \in Cfgs}, tool |-> ToolTable, sealable |-> Sealable])>>)
 =============================================================================
